@@ -44,8 +44,8 @@ def jobs(tier, mutant=None):
             js.append(mk("Cleaner.CleanTarget.%s.t%d" % (tag, tgt), ["OP=1", "TGT=%d" % tgt, "GENARG=0"] + base, "shape %s, target node %d" % (tag, tgt)))
         for rule in (0, 1):
             js.append(mk("Cleaner.CleanRule.%s.r%d" % (tag, rule), ["OP=2", "RULE=%d" % rule, "GENARG=0"] + base, "shape %s, rule r%d" % (tag, rule)))
-    for lm in ((15, 6, 9) if tier == "quick" else range(16)):
-        js.append(mk("Cleaner.CleanDead.log%d" % lm, ["OP=3", "GENMASK=0", "DEPMASK=0", "RSPMASK=0", "PHONY2=0", "GENARG=0", "LOGMASK=%d" % lm], "log entries mask %d (a, stale, lonely, src)" % lm))
+    for lm in ((31, 6, 25) if tier == "quick" else range(32)):
+        js.append(mk("Cleaner.CleanDead.log%d" % lm, ["OP=3", "GENMASK=0", "DEPMASK=0", "RSPMASK=0", "PHONY2=0", "GENARG=0", "LOGMASK=%d" % lm], "log entries mask %d (a, stale, lonely, src, all)" % lm))
     return js
 
 
